@@ -801,6 +801,7 @@ SPECIAL = {
     'braces_message': ["raise ValueError('{curly} {0} {braces}')"],
     'os_error_args': ["raise OSError(2, 'No such file or directory', 'x.txt')"],
     'assert_false': ["assert 1 == 2, 'math is broken'"],
+    'many_inputs_then_fail': ["values = []", "for i in range(45):", "    values.append(input('v? '))", "total = 1 // len(values[0:0])"],
     'stdout_close': ["import sys", "print('x')", "sys.stdout.close()"],
     'stdout_close_then_print': ["import sys", "print('x')", "sys.stdout.close()", "print('y')"],
     'del_builtin_use': ["print = None", "print('x')"],
@@ -808,4 +809,6 @@ SPECIAL = {
 
 
 def special_program(name):
-    return {'files': {'answer.py': [[ln] for ln in SPECIAL[name]]}, 'funcs': [], 'reads': 0, 'special': name}
+    # one statement (possibly a whole compound statement) per list entry would be nicer for shrinking, but these
+    # programs are minimal already: keep them as a single block so that indentation stays intact
+    return {'files': {'answer.py': [list(SPECIAL[name])]}, 'funcs': [], 'reads': 0, 'special': name}
